@@ -18,9 +18,18 @@ EXTENDS PSRun
 CONSTANTS NP, G, MaxIter, Clustering, ClusterEvery, Metric, Cap, ImplVariant
 
 VARIABLES nextId,   \* next fresh provenance id
-          atOne     \* number of batches committed at beta = 1 (posterior ESS grows with them)
+          atOne,    \* number of batches committed at beta = 1 (posterior ESS grows with them)
+          bad       \* names of the PSRun clauses violated so far (always {} for the intended behaviour,
+                    \* where the clauses are guards; for ImplVariant # "none" the steps are taken
+                    \* unguarded, as the code takes them, and the violated clauses accumulate here)
 
-mcvars == <<vars, nextId, atOne>>
+mcvars == <<vars, nextId, atOne, bad>>
+
+Guarded == ImplVariant = "none"
+\* take a step: intended = clauses are guards; code-shaped = update only, record what fails
+Take(clauses, update) ==
+    IF Guarded THEN All(clauses) /\ update /\ bad' = bad
+               ELSE update /\ bad' = bad \cup Failing(clauses)
 
 Cfg == [np |-> NP, one |-> G, target |-> 1, nTotal |-> 1, metric |-> Metric,
         clustering |-> Clustering, clusterEvery |-> ClusterEvery, cap |-> Cap]
@@ -29,7 +38,7 @@ MCInit ==
     /\ pc = "ctor" /\ cfg = Cfg
     /\ iter = 0 /\ beta = 0 /\ ess = 0 /\ logz = 0 /\ wts = 0 /\ calls = 0 /\ evals = 0
     /\ cur = <<>> /\ hist = <<>> /\ clus = [fitted |-> FALSE, K |-> 0] /\ modes = <<>> /\ nsw = 0
-    /\ nextId = 1 /\ atOne = 0
+    /\ nextId = 1 /\ atOne = 0 /\ bad = {}
 
 Enough == atOne >= 1
 
@@ -87,58 +96,63 @@ SWObs ==
 MCReweight ==
     /\ pc = "ready"
     /\ Continue(Enough) /\ iter < MaxIter
-    /\ \E o \in RWObs : Reweight(o)
+    /\ \E o \in RWObs : All(RW_Clauses(o)) /\ ReweightU(o)   \* the oracle is always contract-conforming
+    /\ bad' = bad
     /\ UNCHANGED <<nextId, atOne>>
 
-MCTrain == pc = "reweighted" /\ (\E o \in TRObs : Train(o)) /\ UNCHANGED <<nextId, atOne>>
+MCTrain == pc = "reweighted" /\ (\E o \in TRObs : Take(TR_Clauses(o), TrainU(o))) /\ UNCHANGED <<nextId, atOne>>
 
-MCResample == pc = "trained" /\ (\E o \in RSObs : Resample(o)) /\ UNCHANGED <<nextId, atOne>>
+MCResample == pc = "trained" /\ (\E o \in RSObs : Take(RS_Clauses(o), ResampleU(o))) /\ UNCHANGED <<nextId, atOne>>
 
 MCMutatePrior ==
     /\ pc = "resampled" /\ beta = 0
     /\ \E inf \in (SUBSET (1..NP)) \ {1..NP} : \E src \in (1..NP) \ inf :
-         MutatePrior([slots |-> [i \in 1..NP |->
+         LET o == [slots |-> [i \in 1..NP |->
                                    IF i \in inf
                                    THEN IF ImplVariant = "keepinf" THEN Slot(Rec(nextId + i - 1), 0, FALSE)
                                                                    ELSE Slot(Rec(nextId + src - 1), 0, TRUE)
                                    ELSE Slot(Rec(nextId + i - 1), 0, TRUE)],
                       dEvals |-> NP, calls |-> calls + NP, nInf |-> Cardinality(inf),
-                      zInHull |-> TRUE, logz |-> logz])
+                      zInHull |-> TRUE, logz |-> logz]
+         IN Take(MP_Clauses(o), MutatePriorU(o))
     /\ nextId' = nextId + NP
     /\ UNCHANGED atOne
 
 MCMutateBegin ==
     /\ pc = "resampled" /\ beta > 0
-    /\ MutateBegin([slots |-> cur, modes |-> modes, modesOK |-> TRUE])
+    /\ LET o == [slots |-> cur, modes |-> modes, modesOK |-> TRUE] IN Take(MB_Clauses(o), MutateBeginU(o))
     /\ UNCHANGED <<nextId, atOne>>
 
 MCSweep ==
     /\ pc = "mutating" /\ nsw < 2
-    /\ \E o \in SWObs : Sweep(o)
+    /\ \E o \in SWObs : Take(SW_Clauses(o), SweepU(o))
     /\ nextId' = nextId + NP
     /\ UNCHANGED atOne
 
 MCMutateEnd ==
-    /\ pc = "mutating"
-    /\ MutateEnd([slots |-> cur,
-                  calls |-> IF ImplVariant = "lostcalls" /\ nsw = 2 THEN calls + NP ELSE calls + nsw * NP,
-                  dEvals |-> nsw * NP])
+    /\ pc = "mutating" /\ nsw >= 1
+    /\ LET o == [slots |-> cur,
+                 calls |-> IF ImplVariant = "lostcalls" /\ nsw = 2 THEN calls + NP ELSE calls + nsw * NP,
+                 dEvals |-> nsw * NP]
+       IN Take(ME_Clauses(o), MutateEndU(o))
     /\ UNCHANGED <<nextId, atOne>>
 
 MCCommit ==
     /\ pc = "mutated"
-    /\ Commit([batch |-> [i \in DOMAIN cur |-> cur[i].rec], histLen |-> Len(hist) + 1,
-               keyLens |-> <<Len(hist) + 1>>, prefixSame |-> TRUE])
+    /\ LET o == [batch |-> [i \in DOMAIN cur |-> cur[i].rec], histLen |-> Len(hist) + 1,
+                 keyLens |-> <<Len(hist) + 1>>, prefixSame |-> TRUE]
+       IN Take(CM_Clauses(o), CommitU(o))
     /\ atOne' = IF beta = cfg.one THEN atOne + 1 ELSE atOne
     /\ UNCHANGED nextId
 
 MCTerminate ==
-    /\ pc = "ready" /\ ~Continue(Enough)
-    /\ Terminate([nearOne |-> (beta = cfg.one), essPost |-> 1, evid |-> 7, evidAt |-> 7])
+    /\ pc = "ready" /\ ~Continue(Enough) /\ hist # <<>>
+    /\ LET o == [nearOne |-> (beta = cfg.one), essPost |-> 1, evid |-> 7, evidAt |-> 7]
+       IN Take(TM_Clauses(o), TerminateU(o))
     /\ UNCHANGED <<nextId, atOne>>
 
 MCNext ==
-    \/ (InitFresh /\ UNCHANGED <<nextId, atOne>>)
+    \/ (InitFresh /\ UNCHANGED <<nextId, atOne, bad>>)
     \/ MCReweight \/ MCTrain \/ MCResample \/ MCMutatePrior \/ MCMutateBegin
     \/ MCSweep \/ MCMutateEnd \/ MCCommit \/ MCTerminate
 
@@ -146,6 +160,8 @@ MCSpec == MCInit /\ [][MCNext]_mcvars
 
 \* a run that may still continue must be able to take a step (no step of the pipeline can get stuck)
 NoStuck == (pc # "done" /\ iter < MaxIter) => ENABLED MCNext
+
+NoClauseFails == bad = {}
 
 \* reachability witnesses (must be VIOLATED when listed as invariants: non-vacuity)
 NeverDone      == pc # "done"
